@@ -172,6 +172,36 @@ def rule_b(ctx: Context, R: Reporter, fi: FuncInfo):
     R.floor("C06.b", "returns", len(rets), 1)
     for rn in rets:
         v = rn.stmt.value
+        # a vectorised comb: the result of searchsorted(cumulative weights, positions) has one entry per position, and the
+        # positions are an elementwise function of arange(size): exactly `size` entries, every one of them assigned
+        vec = v
+        if isinstance(vec, ast.Name):
+            dsv = flow.reaching(rn, vec.id)
+            if len(dsv) == 1 and dsv[0].kind == "assign" and dsv[0].value is not None and not dsv[0].path and not isinstance(dsv[0].value, ast.Name):
+                vec = dsv[0].value
+        if not isinstance(vec, ast.Name):
+            core = vec
+            while True:
+                ext_ = (ctx.res.external_name(fi, core) or "") if isinstance(core, ast.Call) else ""
+                if ext_ in ("numpy.minimum", "numpy.clip", "numpy.asarray", "numpy.array") and core.args:
+                    core = core.args[0]
+                elif isinstance(core, ast.Call) and isinstance(core.func, ast.Attribute) and core.func.attr in ("astype", "clip") and not ext_.startswith("numpy."):
+                    core = core.func.value
+                else:
+                    break
+            if isinstance(core, ast.Call) and (ctx.res.external_name(fi, core) or "") == "numpy.searchsorted" and len(core.args) >= 2:
+                from ..dataflow import Resolver as _Rv
+
+                pos = _Rv(fi.node).resolve(core.args[1], rn)
+                aranges = [c for c in ast.walk(pos) if isinstance(c, ast.Call) and (ctx.res.external_name(fi, c) or "") == "numpy.arange"]
+                shape_changing = [c for c in ast.walk(pos) if isinstance(c, (ast.Subscript, ast.ListComp, ast.GeneratorExp)) or
+                                  (isinstance(c, ast.Call) and (ctx.res.external_name(fi, c) or "").split(".")[-1] in ("concatenate", "append", "repeat", "tile", "unique", "delete", "insert", "linspace", "resize"))]
+                size_ok = len(aranges) == 1 and len(aranges[0].args) == 1 and not aranges[0].keywords and isinstance(aranges[0].args[0], ast.Name) and aranges[0].args[0].id == size_param and not shape_changing
+                R.check("C06.b", "output is allocated with exactly the requested size", size_ok, fi, rn.stmt,
+                        msg=f"{fi.short}: the vectorised result has one entry per element of `{unparse(core.args[1])[:40]}`, which is not an elementwise function of arange({size_param})", key="alloc-size")
+                R.check("C06.b", "every slot is assigned exactly once, unconditionally", size_ok, fi, rn.stmt,
+                        msg=f"{fi.short}: vectorised result over `{unparse(core.args[1])[:40]}`", key="slots-assigned")
+                continue
         if not isinstance(v, ast.Name):
             raise AnalysisError("C06.b: systematic routine returns an expression (unmodelled)")
         ds = flow.reaching(rn, v.id)
@@ -489,6 +519,30 @@ def run(ctx: Context, R: Reporter):
     R.guard(rule_f, ctx, R, fi)
 
 
+def _vectorised_comb(expr: str, direct: bool = False):
+    """systematic_resample with the walking loop replaced by `indeces = <expr>` (or `return <expr>`)"""
+    def apply(sources):
+        rel = "tempest/tools.py"
+        src = sources.get(rel)
+        if src is None:
+            return None
+        tree = ast.parse(src)
+        fn = next((n for n in ast.walk(tree) if isinstance(n, ast.FunctionDef) and n.name == "systematic_resample"), None)
+        if fn is None:
+            return None
+        start = next((i for i, st in enumerate(fn.body) if isinstance(st, ast.Assign) and isinstance(st.targets[0], ast.Name) and st.targets[0].id == "j"), None)
+        end = next((i for i, st in enumerate(fn.body) if isinstance(st, ast.Return)), None)
+        if start is None or end is None or end <= start:
+            return None
+        new = ast.parse(f"return {expr}" if direct else f"indeces = {expr}\nreturn indeces").body
+        fn.body[start:end + 1] = new
+        ast.fix_missing_locations(tree)
+        out = dict(sources)
+        out[rel] = ast.unparse(tree) + "\n"
+        return out
+    return apply
+
+
 def variants():
     from ..variants import chain, insert_before, insert_before_function  # noqa
     from ..variants import Variant, alpha_rename, replace_expr, replace_stmt, set_keyword
@@ -500,6 +554,11 @@ def variants():
         Variant("a-off-by-one-bound", "bad", replace_expr(tl, "systematic_resample", "j < len(weights) - 1", "j < len(weights)"), ["C06.a"], quick=True),
         Variant("a-le-bound", "bad", replace_expr(tl, "systematic_resample", "j < len(weights) - 1", "j <= len(weights) - 1"), ["C06.a"]),
         Variant("b-alloc-wrong", "bad", replace_expr(tl, "systematic_resample", "np.empty(size, dtype=int)", "np.empty(len(weights), dtype=int)"), ["C06.b"]),
+        # the comb written with searchsorted: decided on its merits (count of positions, clamp), not by its shape
+        Variant("b-benign-vectorised-comb-clamped", "benign", _vectorised_comb("np.minimum(np.searchsorted(np.cumsum(weights), positions, side='left'), len(weights) - 1)"), quick=True),
+        Variant("b-benign-vectorised-comb-returned-directly", "benign", _vectorised_comb("np.minimum(np.searchsorted(np.cumsum(weights), positions, side='left'), len(weights) - 1)", direct=True)),
+        Variant("a-vectorised-comb-unclamped", "bad", _vectorised_comb("np.searchsorted(np.cumsum(weights), positions, side='left')"), ["C06.a"], quick=True),
+        Variant("b-vectorised-comb-wrong-count", "bad", _vectorised_comb("np.minimum(np.searchsorted(np.cumsum(weights), positions[:-1], side='left'), len(weights) - 1)"), ["C06.b"], quick=True),
         Variant("b-conditional-store", "bad", replace_stmt(tl, "systematic_resample", "indeces[i] = j", "if j > 0:\n    indeces[i] = j"), ["C06.b"], quick=True),
         Variant("c-per-position-draw", "bad", replace_expr(tl, "systematic_resample", "np.random.random()", "np.random.random(size)"), ["C06.c"], quick=True),
         Variant("c-positions-no-offset-div", "bad", replace_expr(tl, "systematic_resample", "(np.random.random() + np.arange(size)) / size", "np.random.random() + np.arange(size) / size"), ["C06.c"]),
@@ -509,7 +568,7 @@ def variants():
         Variant("d-no-replace", "bad", set_keyword(rs, "Resampler.run", "np.random.choice", "replace", "False"), ["C06.d"]),
         Variant("d-population-short", "bad", replace_expr(rs, "Resampler.run", "np.arange(len(weights))", "np.arange(self.n_particles)"), ["C06.d"], quick=True),
         Variant("f-cumsum-into-callers-weights", "bad", replace_stmt(tl, "systematic_resample", "j = 0", "cdf = np.asarray(weights, dtype=float)\nnp.cumsum(cdf, out=cdf)\nj = 0"), ["C06.f"], quick=True),
-        Variant("f-normalise-caller-weights-in-place", "bad", insert_before(rs, "Resampler.run", "self.state.set_current('u', u_resampled)", "weights /= np.sum(weights)"), ["C06.f"]),
+        Variant("f-normalise-caller-weights-in-place", "bad", insert_before(rs, "Resampler.run", "self.state.update_current(", "weights /= np.sum(weights)"), ["C06.f"]),
         Variant("f-cached-comb-shifted-in-place", "bad", chain(insert_before_function(tl, "systematic_resample", "from functools import lru_cache\n\n\n@lru_cache(maxsize=32)\ndef _comb_teeth(size):\n    return np.arange(size) / size\n"),
                                                                   replace_stmt(tl, "systematic_resample", "positions = (np.random.random() + np.arange(size)) / size", "positions = _comb_teeth(size)\npositions += np.random.random() / size")), ["C06.f", "C06.c"]),
         Variant("f-benign-cumsum-of-copy", "benign", replace_stmt(tl, "systematic_resample", "j = 0", "cdf = np.array(weights, dtype=float)\nnp.cumsum(cdf, out=cdf)\nj = 0"), quick=True),
